@@ -328,10 +328,15 @@ impl CallStack {
             context_index = self.get_current_element_index() + 1;
         }
 
-        let context_element = self
-            .get_callstack_mut()
-            .get_mut((context_index - 1) as usize)
-            .unwrap();
+        // contextIndex 0 means global, so index is actually 1-based
+        let level = usize::try_from(context_index)
+            .ok()
+            .and_then(|i| i.checked_sub(1));
+        let Some(context_element) = level.and_then(|i| self.get_callstack_mut().get_mut(i)) else {
+            return Err(StoryError::InvalidStoryState(format!(
+                "Could not find the call stack level {context_index} of temporary variable: {name}"
+            )));
+        };
 
         if !declare_new && !context_element.temporary_variables.contains_key(&name) {
             return Err(StoryError::InvalidStoryState(format!(
@@ -377,8 +382,9 @@ impl CallStack {
             context_index = self.get_current_element_index() + 1;
         }
 
-        let context_element = self.get_callstack().get((context_index - 1) as usize);
-        let var_value = context_element.unwrap().temporary_variables.get(name);
+        let level = usize::try_from(context_index).ok()?.checked_sub(1)?;
+        let context_element = self.get_callstack().get(level)?;
+        let var_value = context_element.temporary_variables.get(name);
 
         var_value.cloned()
     }
